@@ -114,8 +114,10 @@ class Runner:
             st.inc("difference:" + kind)
             replay = dict(inst.describe(), after=str(p2), difference=kind, detail=det, validator=verdict, case=name)
             ck.violation(key, replay, "replace accepted a block that is not an instance: %s (%s)" % (kind, det.get("detail", "")))
-            if certified and (kind in ("value-mismatch", "uninit-result", "config-mismatch") or kind.startswith("body-fails")):
-                # the proved validator certified "call completes => block completes in the same memory"
+            if certified and (kind in ("value-mismatch", "uninit-result", "config-mismatch") or kind.startswith("rev-")):
+                # the proved validator certified "call completes => block completes in the same memory":
+                # two completed runs that differ, or a completed call whose block fails, contradict the theorem
+                # (i.e. the exporter / extraction / harness is wrong) -- never expected
                 ck.broken_obligation("validator-contradicted-by-execution", str(replay)[:600])
         sem_ok = not [d for d in diffs if d[0] != "unsupported"]
         if sem_ok and not certified:
@@ -262,6 +264,7 @@ class Runner:
                         "buffer" if (isinstance(a, LoopIR.Read) and a.type.is_numeric()) else "control" for a in call.args})
         ck.case(stream, (src, str(path)), nontrivial=True, tag=tag or "+".join(kinds),
                 sample={"call": str(call)[:200], "model": r["model"][:400]})
+        self.st.inc(stream + ":theorem-side-conditions-" + r.get("side_conditions", "?"))
         if r["agree"]:
             ck.corr_agree(stream)
             self.st.inc(stream + (":exact" if r["exact"] else ":alpha"))
@@ -272,6 +275,46 @@ class Runner:
                          {"module_source": src, "call_path": str(path), "model": r["model"], "impl": r["real"],
                           "detail": r.get("detail"), "proc": str(caller)},
                          "the real inline and the model Unify.Inline.do_inline differ: %s" % r.get("detail"))
+
+    def inline_probe(self, c):
+        """semantics of the REAL inline on a fixed call site (all calls of the target, one after the other)"""
+        ck = self.ck
+        mod, err = progen.load_module(c["src"], "c05probe")
+        if mod is None:
+            ck.broken_obligation("inline-probe-rejected-by-front-end:" + c["name"], err or "")
+            return
+        p0 = p = mod.target
+        try:
+            while True:
+                calls = [pth for pth, s in X._all_stmts(p) if isinstance(s, LoopIR.Call)]
+                if not calls:
+                    break
+                p = S.inline(p, X.call_cursor(p, calls[0]))
+        except X.REFUSALS as e:
+            self.st.inc("inline-probe:%s:refused" % c["name"])
+            ck.case("inline:probe", c["name"], nontrivial=True, tag="refused", sample={"probe": c["name"], "result": "refused: %s" % e})
+            ck.corr_agree("inline:probe")
+            return
+        self.sc.reset()
+        self.sc.gen = self.small
+        diffs = []
+        r1 = self.sc.compare(p0, p, n_inputs=6)
+        if r1 and r1["kind"] != "unsupported":
+            diffs.append((r1["kind"], r1))
+        r2 = self.sc.compare(p, p0, n_inputs=6)
+        if r2 and r2["kind"] != "unsupported":
+            diffs.append(("rev-" + r2["kind"], r2))
+        ck.case("inline:probe", c["name"], nontrivial=True, tag="inlined",
+                sample={"probe": c["name"], "before": str(p0), "after": str(p), "differences": [d[0] for d in diffs]})
+        self.st.inc("inline-probe:%s:%s" % (c["name"], "equal" if not diffs else "DIFFERENT"))
+        if not diffs:
+            ck.corr_agree("inline:probe")
+        for kind, det in diffs:
+            key = ("inline:%s:%s:reverse-direction" % (c["name"], kind[4:]) if kind.startswith("rev-")
+                   else "inline:%s:%s" % (c["name"], kind))
+            ck.violation(key,
+                         {"module_source": c["src"], "before": str(p0), "after": str(p), "detail": det},
+                         "the real inline changed the meaning of the procedure: %s" % det.get("detail"))
 
     def inline_malformed(self, caller, path, src):
         """call sites the front end would not accept, built on the IR: a dropped last argument (Python's zip
@@ -338,9 +381,11 @@ def run(ck: common.Check):
             res = r.fixed(c, "search:regress")
             if res is not None:
                 st.inc("regress:%s:%s" % (c["name"], "rejected" if not res["accepted"] else "ACCEPTED"))
+        for c in CASES.INLINE_PROBES:
+            r.inline_probe(c)
         ck.log("witnesses %.1fs" % (time.time() - t0))
         # 2. correspondence of the inline model
-        r.inline_corr(ck.n(120, 1500), ck.n(25, 240))
+        r.inline_corr(ck.n(300, 1500), ck.n(30, 240))
         ck.log("inline correspondence %.1fs" % (time.time() - t0))
         # 4. search
         for c in CASES.REPO_TESTS:
@@ -348,7 +393,7 @@ def run(ck: common.Check):
         ck.log("repo tests %.1fs" % (time.time() - t0))
         r.x86()
         ck.log("x86 %.1fs" % (time.time() - t0))
-        r.generated(ck.n(60, 1500), ck.n(70, 700))
+        r.generated(ck.n(200, 1500), ck.n(60, 700))
         ck.log("generated %.1fs" % (time.time() - t0))
     finally:
         r.sc.close()
@@ -359,7 +404,9 @@ def run(ck: common.Check):
     ck.cov["replaces_accepted"] = acc
     ck.cov["replaces_certified_by_proved_validator"] = cert
     ck.cov["replaces_uncertified_but_equal_in_execution"] = st.get("uncertified-but-executions-agree", 0)
-    ck.cov["certified_rate"] = round(cert / acc, 3) if acc else None
+    validated = sum(v for k, v in st.items() if k.startswith("validator:") and k != "validator:block-leaves-bindings")
+    ck.cov["replaces_validated"] = validated  # accepted replaces of procedures the front end accepts
+    ck.cov["certified_rate"] = round(cert / validated, 3) if validated else None
     ck.cov["inputs_run_in_reference_semantics"] = r.sc.runs
     ck.cov["uncertified_samples"] = r.samples
     ck.cov["rule"] = (
